@@ -206,7 +206,7 @@ def run(ctx: core.Ctx) -> int:
             if pre_exists:
                 c["steps"] = c["steps"] * 2
             cases.append(c)
-    evl = core.pmap(run_case, cases, chunksize=8, daemon=False)      # `download --all` starts the tool's own process pool
+    evl = ctx.pmap(run_case, cases, chunksize=8, daemon=False)      # `download --all` starts the tool's own process pool
     events = [e for es in evl for e in es]
     for ev in events[:: max(1, len(events) // 4)][:4]:
         ctx.samples.append({"case": json.loads(ev["label"]), "exit": ev["exit"], "netlog": ev["netlog"],
@@ -230,4 +230,4 @@ def run(ctx: core.Ctx) -> int:
 
 
 def replay(ctx: core.Ctx, path: str) -> int:
-    raise core.MachineryError("replay for C19 re-runs the case list; use the check with the same VERIF_SEED")
+    return core.generic_replay(ctx, path)
